@@ -342,6 +342,9 @@ func c49BestSoFar(c *Ctx, f *ssa.Function, app *ssa.Call, isSize VM, name string
 		if fc.Op == token.LSS && isSize(fc.X) {
 			best = fc.Y
 		}
+		if fc.Op == token.GTR && isSize(fc.Y) { // spelled `best > size`
+			best = fc.X
+		}
 	}
 	if !c.Expect(best != nil, app, f, st.fn+":less-specific-test", "no 'less specific than the best' test") {
 		return
